@@ -332,6 +332,14 @@ def standard_proof_obligations(run, module, theorems, allowed_axioms=()):
         rc, out, dt = sh(["coqchk", "-o", "-silent", "-Q", COQ, "CE", "CE.Properties.%s" % module], cwd=COQ, timeout=3000)
         m = re.search(r"\* Axioms:(.*?)\n\s*\n", out, re.S)
         axioms = m.group(1).strip() if m else "?"
+        # kernel primitives (63-bit integers, binary64 floats, arrays) are listed by coqchk among the axioms of any
+        # development that loads them (MathComp's zify, Flocq, our correspondence helpers); they are not declarations of ours
+        listed = [a.strip() for a in axioms.splitlines() if a.strip() and a.strip() != "<none>"]
+        prim = [a for a in listed if re.match(r"Coq\.(Numbers\.Cyclic\.Int63\.(PrimInt63|Uint63|Sint63)|Floats\.(PrimFloat|FloatOps)|Array\.PArray)\.", a)]
+        foreign = [a for a in listed if a not in prim]
+        if prim:
+            run.assume.append("coqchk lists %d kernel primitives (PrimInt63/PrimFloat) loaded through libraries; no other axiom" % len(prim))
+        axioms = "<none>" if not foreign else ", ".join(foreign)
         clean = rc == 0 and axioms == "<none>" and "type-in-type: <none>" in out and "unsafe (co)fixpoints: <none>" in out \
             and "positivity is assumed: <none>" in out
         run.oblige("coqchk -o on Properties/%s: no axioms, no type-in-type, no unsafe fixpoints, no assumed positivity" % module, clean,
